@@ -15,16 +15,21 @@ Fs(n) == [i \in 1..n |-> 255]
 Pats(n) == { Zs(n - 1) \o <<1>>, Zs(n - 1) \o <<2>>, Fs(n), <<127>> \o Fs(n - 1), <<1>> \o Zs(n - 1), Zs(n - 1) \o <<255>> }
 Magics == { <<181, 238, 156, 114>>, <<104, 255, 101, 243>>, <<172, 195, 167, 40>> }
 Flags  == { 0, 128, 160, 64, 192 }                  \* none, idx, idx+cache, crc, idx+crc  (generic magic only)
-Tails  == { <<>>, Zs(6), <<0, 2, 170>>, <<0, 0, 0, 2, 170, 0, 0, 0, 0>> }
+Tails  == { <<>>, Zs(1), Zs(4), Zs(6), <<0, 2, 170>>, <<0, 0, 0, 2, 170, 0, 0, 0, 0>> }
 
 VARIABLES mg, fl, sz, ob, cells, roots, tot, tail, out
 vars == <<mg, fl, sz, ob, cells, roots, tot, tail, out>>
 Hash(x) == (Len(x) * 7 + FoldLeft(LAMBDA a, b : (a * 31 + b) % 9973, 1, x)) % 9973
 Init == /\ mg \in Magics /\ fl \in Flags /\ sz \in 1..4 /\ ob \in {1, 2, 3, 4, 8}
         /\ cells \in Pats(sz) \cup {Zs(sz)} /\ roots \in {Zs(sz - 1) \o <<1>>, Fs(sz), Zs(sz)} /\ tot \in Pats(ob) \cup {Zs(ob)} /\ tail \in Tails
-        /\ (Hash(mg \o cells \o tot \o tail) + fl + 3 * sz + 5 * ob) % Stride = 0
+        \* the headers that announce NO cell at the narrowest widths are always emitted (an implied root in an empty bag)
+        /\ \/ (Hash(mg \o cells \o tot \o tail) + fl + 3 * sz + 5 * ob) % Stride = 0
+           \/ (cells = Zs(sz) /\ sz = 1 /\ ob = 1)
         /\ out = "todo"
-Bytes == mg \o <<(IF mg[1] = 181 THEN fl ELSE 0) + sz, ob>> \o cells \o roots \o Zs(sz) \o tot \o tail
+Bytes0 == mg \o <<(IF mg[1] = 181 THEN fl ELSE 0) + sz, ob>> \o cells \o roots \o Zs(sz) \o tot
+\* where the format carries a checksum a tail of 4 zero bytes stands for the RIGHT checksum of what precedes it
+HasCrc == mg[1] = 172 \/ (mg[1] = 181 /\ (fl \div 64) % 2 = 1)
+Bytes == IF HasCrc /\ tail = Zs(4) THEN Bytes0 \o Reverse(Crc32c(Bytes0)) ELSE Bytes0 \o tail
 Label(B) == LET P == Parse(B) IN IF P.ok THEN "accepted" ELSE P.err
 Next == /\ out = "todo" /\ out' = "done" /\ UNCHANGED <<mg, fl, sz, ob, cells, roots, tot, tail>>
         /\ PrintT(<<"VEC", ToJson([boc |-> BytesToHex(Bytes), guard |-> Label(Bytes), pos |-> 0, val |-> 0])>>)
